@@ -162,7 +162,8 @@ func New(opt Options) (*Stack, error) {
 			SetRuntimeAPIAddress(addr).
 			SetExtensionsFlag(true).
 			SetInitCachingFlag(opt.InitCaching).
-			SetEventsAPI(&telRecorder{r: r})
+			SetEventsAPI(&telRecorder{r: r}).
+			SetTracer(&recTracer{r: r})
 		if opt.Handler != "" {
 			b.SetHandler(opt.Handler)
 		}
@@ -637,8 +638,16 @@ func (s *Stack) RtError(p *Proc, who, idClass, errType string, body []byte, hdr 
 }
 
 func (s *Stack) RtInitError(p *Proc, who, errType string, body []byte) CallResult {
+	return s.RtInitErrorH(p, who, errType, body, nil)
+}
+
+// RtInitErrorH: RtInitError with further request headers.
+func (s *Stack) RtInitErrorH(p *Proc, who, errType string, body []byte, hdr map[string]string) CallResult {
 	a := actorOf(p, who)
 	h := map[string]string{}
+	for k, v := range hdr {
+		h[k] = v
+	}
 	if errType != "" {
 		h["Lambda-Runtime-Function-Error-Type"] = errType
 	}
@@ -855,7 +864,11 @@ func (s *Stack) ExtError(p *Proc, who, which, idClass, errType string) CallResul
 		h["Lambda-Extension-Function-Error-Type"] = errType
 	}
 	evn := map[string]string{"init": "ExtInitErr", "exit": "ExtExitErr"}[which]
-	cid := s.Rec.Emit(who, evn+"Call", "who", who, "gen", gen(p), "idc", idClass, "errType", errType, "idgen", s.idGen(p, who))
+	idg := s.idGenClass(p, who, idClass)
+	if idClass == "old" {
+		idClass = "" // a well-formed identifier; whose it is says idgen
+	}
+	cid := s.Rec.Emit(who, evn+"Call", "who", who, "gen", gen(p), "idc", idClass, "errType", errType, "idgen", idg)
 	r := s.do(p, "POST", "/2020-01-01/extension/"+which+"/error", h, []byte("{}"))
 	s.Rec.Emit(who, evn+"Ret", "cid", cid, "who", who, "gen", gen(p), "idc", idClass, "status", r.Status, "errType", r.ErrType, "net", r.NetErr)
 	return r
